@@ -214,3 +214,21 @@ Proof.
   intros x y z L1 L2 Hx. rewrite (src_sokal_michener_eq x z (eq_trans L1 L2)), (src_sokal_michener_eq x y L1), (src_sokal_michener_eq y z L2).
   apply C12_sokalmichener_triangle; assumption.
 Qed.
+
+(* the translated minkowski at p = 1 / p = 2 IS the translated manhattan / euclidean, and inherits their triangle inequalities *)
+Corollary C12_src_minkowski_p1 : forall x y : list R, length x = length y ->
+  src_minkowski RNum x y 1 = src_manhattan RNum x y.
+Proof. intros x y L. rewrite (src_minkowski_eqR 1 x y L), (src_manhattan_eqR x y L). apply C12_minkowski_p1. Qed.
+
+Corollary C12_src_minkowski_p2 : forall x y : list R, length x = length y ->
+  src_minkowski RNum x y 2 = src_euclidean RNum x y.
+Proof. intros x y L. rewrite (src_minkowski_eqR 2 x y L), (src_euclidean_eqR x y L). apply C12_minkowski_p2. Qed.
+
+Corollary C12_src_minkowski_p12_triangle : forall x y z : list R, length x = length y -> length y = length z ->
+  src_minkowski RNum x z 1 <= src_minkowski RNum x y 1 + src_minkowski RNum y z 1 /\
+  src_minkowski RNum x z 2 <= src_minkowski RNum x y 2 + src_minkowski RNum y z 2.
+Proof.
+  intros x y z L1 L2. pose proof (eq_trans L1 L2) as L3.
+  rewrite !C12_src_minkowski_p1, !C12_src_minkowski_p2 by assumption.
+  split; [apply C12_src_manhattan_triangle | apply C12_src_euclidean_triangle]; assumption.
+Qed.
